@@ -9,13 +9,16 @@ import sys
 
 def parse(path):
     out = {}
+    walls = {}
     for line in open(path, errors="replace"):
+        m = re.match(r"== (C\d\d) tier=\w+ rc=(\d+) wall=(\d+)s", line)
+        if m:
+            walls[m.group(1)] = int(m.group(3))
         m = re.match(r"HELD property=(C\d\d) tier=\w+ seed=\d+ evaluations=(\d+) distinct_nontrivial=(\d+)", line)
         if m:
             out[m.group(1)] = [int(m.group(2)), int(m.group(3)), None]
-        m = re.match(r"== (C\d\d) tier=\w+ rc=(\d+) wall=(\d+)s", line)
-        if m and m.group(1) in out:
-            out[m.group(1)][2] = int(m.group(3))
+    for k in out:
+        out[k][2] = walls.get(k)
     return out
 
 
